@@ -564,6 +564,8 @@ class Registry:
         saved = dict(eng.bound)
         eng.qdepth = getattr(eng, "qdepth", 0) + 1
         npc = len(st.pc)
+        ctx = dict(consts=consts, member=member, raises=[])
+        eng._comp_ctx = getattr(eng, "_comp_ctx", []) + [ctx]
         try:
             for gi, g in enumerate(gens):
                 if (isinstance(g.iter, ast.Call) and isinstance(g.iter.func, ast.Attribute) and g.iter.func.attr == "items"
@@ -593,8 +595,19 @@ class Registry:
         finally:
             eng.bound = saved
             eng.qdepth -= 1
+            eng._comp_ctx = eng._comp_ctx[:-1]
         if len(st.pc) != npc:
             raise OutOfSubset("definitional axiom introduced under a binder")
+        # calls inside the comprehension whose contract may raise: the comprehension raises iff SOME iteration reaches a raising call
+        for exc, t, mem, cs_, lineno in ctx["raises"]:
+            if eng.spec or len(eng._comp_ctx) > 0:
+                raise OutOfSubset("raising call in a nested / specification comprehension")
+            cond = z3.Exists(cs_, z3.And(*(mem + [t]))) if cs_ else z3.And(*(mem + [t]))
+            s_r = st.fork()
+            s_r.assume(cond)
+            if feasible(s_r):
+                eng.do_raise(s_r, exc, lineno)
+            st.assume(z3.Not(cond))
         return dict(concrete=None, consts=consts, member=zand(*member), elt=ev)
 
     def as_membership(self, eng, coll):
@@ -856,8 +869,14 @@ class Registry:
             out = []
             # exceptional outcomes: raised iff condition
             conds = []
+            under_binder = False
             for exc, cond in c.raises:
                 t = zand(*[t_ for _, t_ in eng.spec_conj([cond], cs)])
+                if getattr(eng, "qdepth", 0) > 0 and not eng.spec and getattr(eng, "_comp_ctx", None):
+                    cx = eng._comp_ctx[-1]
+                    cx["raises"].append((exc, t, list(cx["member"]), list(cx["consts"]), lineno))
+                    under_binder = True
+                    continue
                 conds.append(t)
                 if eng.spec:
                     continue
@@ -1026,6 +1045,8 @@ class Registry:
         elif isinstance(target, ast.Attribute):
             holder = eng.lvalue_obj(target.value, st)
             holder.x[target.attr] = newval
+        elif isinstance(target, ast.Call):
+            return   # the mutated object is a temporary (e.g. Rule(...).modules_that()): only its returned value is observable
         else:
             raise OutOfSubset("mutated argument is a temporary")
 
